@@ -396,7 +396,25 @@ pub fn make_rec_writer(e: End, wbits: usize, wrapper: &str) -> Box<dyn Wr> {
 // ---------------------------------------------------------------------------
 // Replaying a history on every real backend with every finisher
 
-pub const REAL_BACKENDS: [&str; 6] = ["vec", "vecref", "slice", "adapter", "adapter3", "rec"];
+pub const REAL_BACKENDS: [&str; 7] = ["vec", "vecref", "slice", "adapter", "adapter3", "adapterlazy", "rec"];
+
+/// A byte sink that only commits what it was given when it is flushed (like BufWriter): bytes
+/// a finished bit writer has not flushed through are not in `committed`.
+pub struct LazySink {
+    pub pending: Vec<u8>,
+    pub committed: Rc<RefCell<Vec<u8>>>,
+}
+impl std::io::Write for LazySink {
+    fn write(&mut self, buf: &[u8]) -> std::io::Result<usize> {
+        self.pending.extend_from_slice(buf);
+        Ok(buf.len())
+    }
+    fn flush(&mut self) -> std::io::Result<()> {
+        let p = std::mem::take(&mut self.pending);
+        self.committed.borrow_mut().extend_from_slice(&p);
+        Ok(())
+    }
+}
 
 /// A byte sink that accepts at most 3 bytes per write call (legal for std::io::Write).
 pub struct ChunkSink(pub Vec<u8>);
@@ -495,6 +513,18 @@ pub fn run_on_backend(e: End, wbits: usize, backend: &str, finisher: &str, ops: 
                     None
                 ),
                 "adapter" => drive!($E, $W, BufBitWriter::<$E, _>::new(WordAdapter::<$W, Vec<u8>>::new(Vec::new())), |b: WordAdapter<$W, Vec<u8>>| b.into_inner(), None),
+                "adapterlazy" => {
+                    let committed: Rc<RefCell<Vec<u8>>> = Rc::new(RefCell::new(Vec::new()));
+                    let c2 = committed.clone();
+                    let c3 = committed.clone();
+                    drive!(
+                        $E,
+                        $W,
+                        BufBitWriter::<$E, _>::new(WordAdapter::<$W, LazySink>::new(LazySink { pending: Vec::new(), committed })),
+                        move |_b: WordAdapter<$W, LazySink>| c2.borrow().clone(),
+                        Some(Box::new(move || c3.borrow().clone()))
+                    )
+                }
                 "adapter3" => drive!($E, $W, BufBitWriter::<$E, _>::new(WordAdapter::<$W, ChunkSink>::new(ChunkSink(Vec::new()))), |b: WordAdapter<$W, ChunkSink>| b.into_inner().0, None),
                 "rec" => {
                     let rec = Rec::<$W>::new();
